@@ -338,6 +338,12 @@ H("udp_recv_ctrl_capacity", ["C19"], "quick", "unix::recv_ctrl_capacity",
   ["cmsg::LEN (receive control buffer)", "cmsg::Encoder::push (capacity assertion)", "decode_recv", "ControlMetadata::decode"],
   "every subset of {SCM_TIMESTAMPNS timespec, UDP_GRO c_int} followed by {in_pktinfo, IP_TOS u8} or {in6_pktinfo, IPV6_TCLASS c_int}, every value; WHICH messages the kernel attaches is a model of Linux written in the harness (FFI)",
   crate="quinn_udp")
+H("udp_decode_socket_addr_fields", ["C19"], "quick", "unix::decode_socket_addr_fields",
+  [("v6", "bool"), ("a6", "[u8; 16]"), ("a4", "[u8; 4]"), ("port", "u16"), ("flowinfo", "u32"), ("scope", "u32")], 20,
+  ["IPv6", "IPv4"],
+  ["decode_socket_addr"],
+  "every IPv6 address / port / flow label / scope id and every IPv4 address / port",
+  crate="quinn_udp")
 H("udp_prepare_msg_encoding", ["C19"], "quick", "unix::prepare_msg_encoding",
   [("dst_v6", "bool"), ("mapped", "bool"), ("dst", "[u8; 4]"), ("port", "u16"), ("ecn", "u8"), ("len", "usize"), ("has_seg", "bool"), ("seg", "usize"),
    ("src_kind", "u8"), ("src4", "[u8; 4]"), ("src6", "[u8; 16]"), ("einval", "bool")], 20,
@@ -429,12 +435,16 @@ H("conn_handle_packet_core_native", ["C04"], "replay-only", "connection::handle_
   [("mode", "u8")], 4, [], ["Connection::handle_event", "Connection::handle_packet", "Dedup::insert"], "native replay body of E2 queries e2_handle_packet_core_slice / e2_handle_packet_dedup_closure")
 H("conn_migration_trigger_native", ["C15"], "replay-only", "connection::migration_trigger_native",
   [("mode", "u8")], 4, [], ["Connection::handle_event", "Connection::process_payload", "Connection::migrate"], "native replay body of E2 slice query e2_migration_trigger_slice")
+H("conn_path_validation_timeout_native", ["C15"], "replay-only", "connection::path_validation_timeout_native",
+  [("rounds", "u8")], 4, [], ["Connection::handle_event", "Connection::migrate", "Connection::handle_timeout"], "native replay body of E2 slice query e2_path_validation_timeout_slice")
 H("conn_path_response_native", ["C15", "C07"], "replay-only", "connection::path_response_native",
   [("mode", "u8")], 4, [], ["Connection::handle_event", "Connection::process_payload"], "native replay body of E2 slice query e2_path_response_slice")
 H("conn_detect_lost_native", ["C12"], "replay-only", "connection::detect_lost_native",
   [("age_ms", "u16")], 4, [], ["Connection::detect_lost_packets"], "native replay body of E2 slice query e2_detect_lost_iteration_slice")
 H("streams_retransmit_all_0rtt_native", ["C17", "C01"], "replay-only", "connection::streams::retransmit_all_0rtt_native",
   [("len_", "u8"), ("partial", "bool")], 4, [], ["StreamsState::retransmit_all_for_0rtt", "StreamsState::write_stream_frames", "SendStream::finish"], "native replay body of E2 slice query e2_retransmit_all_for_0rtt_iteration")
+H("streams_recvstream_received_reset_native", ["C11"], "replay-only", "connection::streams::recvstream_received_reset_native",
+  [("mode", "u8")], 4, [], ["RecvStream::received_reset", "RecvStream::stop", "RecvStream::read", "StreamsState::received_reset"], "native replay body of E2 query e2_recvstream_received_reset")
 H("streams_stop_sending_native", ["C11"], "replay-only", "connection::streams::stop_sending_native",
   [("state", "u8")], 4, [], ["StreamsState::received_stop_sending", "Send::try_stop", "SendStream::write"], "native replay body of E2 query e2_received_stop_sending")
 H("streams_reset_acked_native", ["C11"], "replay-only", "connection::streams::reset_acked_native",
